@@ -100,7 +100,7 @@ var faultContexts = []faultContext{
 const recPrelude = "func rec(n) 1 + rec(n + 1); "
 
 func runC05(c *Ctx) {
-	c.rule = "fault enumeration: every fault source (operator faults on boundary operands, index/type/arity errors, panicking and failing host functions, the stack-overflow guard) x every evaluation context (top level, closure, try/catch, let, call argument, sequential map/accept, forced-parallel map/accept (300µs host function), downstream and upstream of a parallel stage, merge operands and comparator, multiUse consumers and source, order/groupBy/iir/visit callbacks, map methods) x optimizer on/off x GOMAXPROCS in {1,2,16}, each in an isolated worker process; predicate: the worker survives, Eval returns an error (never ok, never a panic), and inside try/catch the catch value is returned; non-trivial = distinct (source, context, configuration) with a fault actually placed"
+	c.rule = "fault enumeration: every fault source (operator faults on boundary operands, index/type/arity errors, panicking and failing host functions, the stack-overflow guard) x every evaluation context (top level, closure, try/catch, let, call argument, sequential map/accept, forced-parallel map/accept (300µs host function), downstream and upstream of a parallel stage, merge operands and comparator, multiUse consumers and source, order/groupBy/iir/visit callbacks, map methods) x optimizer on/off x GOMAXPROCS in {1,2,16} x entry point (Generate+Eval, a host-built stack, GenerateWithMap), plus runaway recursion along 25 call routes (direct, invoke, map field, list element, wrappers, every same-stack callback), each in an isolated worker process; predicate: the worker survives, Eval returns an error (never ok, never a panic), and inside try/catch the catch value is returned; non-trivial = distinct (source, context, configuration) with a fault actually placed"
 	c.assume = append(c.assume, "process death, Go stack exhaustion and the scheduler are runtime behaviour observed by the worker, not proved")
 	procs := []int{16}
 	if c.Thorough {
@@ -163,6 +163,50 @@ func runC05(c *Ctx) {
 	}
 	parallelBatches(ns, 5, false, 4, 120*time.Second)
 	cases = append(cases, ns...)
+	// the second entry point: GenerateWithMap (the free identifier a is the attribute m.a)
+	var wm []*workerCase
+	for _, fs := range faultSources {
+		for _, fc := range faultContexts {
+			if !(fc.name == "top-level" || fc.name == "in-closure" || fc.name == "in-try" || fc.name == "in-sequential-map" || fc.name == "downstream-of-parallel-map" || fc.name == "in-multiUse-consumer" || fc.name == "in-merge-less") {
+				continue
+			}
+			expr, prelude := fs.expr, ""
+			if fs.kind == "guard" && fs.name != "runaway-self-application" {
+				expr, prelude = "rec(0)", recPrelude
+			}
+			id++
+			wc := &workerCase{id: fmt.Sprintf("w%d", id), a: 0, flags: "opt withmap", src: prelude + fmt.Sprintf(fc.tmpl, expr)}
+			meta[wc.id] = [3]string{fs.name, fc.name, "opt/GenerateWithMap"}
+			wm = append(wm, wc)
+		}
+	}
+	parallelBatches(wm, 12, false, 16, 30*time.Second)
+	cases = append(cases, wm...)
+	// runaway recursion through every way a function can be called (the guard counts slots of ONE value stack: a call
+	// route that starts on a fresh stack never reaches it)
+	routes := []struct{ name, call string }{
+		{"direct", "f(n + 1)"}, {"invoke", "f.invoke([n + 1])"}, {"map-field", "{g: f}.g(n + 1)"}, {"list-element", "[f][0](n + 1)"}, {"closure-wrapper", "(x -> f(x))(n + 1)"},
+		{"curried", "(x -> y -> f(x + y))(n)(1)"}, {"mapReduce-callback", "[n].mapReduce(0, (s, e) -> f(e + 1))"}, {"reduce-callback", "[n, n].reduce((p, q) -> f(p + 1))"},
+		{"visit-callback", "[n].visit(0, (v, e) -> f(e + 1))"}, {"iir-callback", "[n].iir(e -> f(e + 1), (e, l) -> l).last()"}, {"order-key", "[n, n].order(e -> f(e + 1)).first()"},
+		{"map-method-callback", "{x: n}.map((k, v) -> f(v + 1)).x"}, {"minMax-key", "[n].minMax(e -> f(e + 1)).min"}, {"present-callback", "[n].present(e -> f(e + 1) > 0)"},
+		{"indexWhere-callback", "[n].indexWhere(e -> f(e + 1) > 0)"}, {"combine-callback", "[n, n].combine((p, q) -> f(p + 1)).first()"}, {"number-callback", "[n].number((i, e) -> f(e + 1)).first()"},
+		{"let-bound-alias", "let g = f; g(n + 1)"}, {"argument-of-static", "max(1, f(n + 1))"}, {"in-list-literal", "[f(n + 1)][0]"}, {"in-map-literal", "{v: f(n + 1)}.v"}, {"if-branch", "if n < 0 then 0 else f(n + 1)"},
+		{"string-method-receiver", "f(n + 1).string().len()"}, {"cross-callback", "[n].cross([1], (p, q) -> f(p + 1)).first()"}, {"compact-callback", "[n, n].compact((p, q) -> f(p + 1) > 0).size()"},
+	}
+	var rr []*workerCase
+	for _, r := range routes {
+		for _, ctx := range []struct {
+			name, tmpl, flags string
+		}{{"top-level", "func f(n) %s; f(0)", "opt"}, {"in-try", "func f(n) %s; try f(0) catch 0 - 99", "opt"}, {"top-level", "func f(n) %s; f(0)", "noopt"},
+			{"top-level", "func f(n) %s; f(0)", "opt newstack"}, {"top-level", "func f(n) %s; f(0)", "opt withmap"}, {"in-closure", "func f(n) %s; (k -> k + f(0))(1)", "opt"}} {
+			id++
+			wc := &workerCase{id: fmt.Sprintf("r%d", id), a: 0, flags: ctx.flags, src: fmt.Sprintf(ctx.tmpl, r.call)}
+			meta[wc.id] = [3]string{"runaway-recursion-route:" + r.name, ctx.name, ctx.flags}
+			rr = append(rr, wc)
+		}
+	}
+	parallelBatches(rr, 12, false, 4, 120*time.Second)
+	cases = append(cases, rr...)
 	// recursion through fresh stacks: known to exhaust the Go stack (fatal, not recoverable)
 	deep := []*workerCase{
 		{id: "deep1", a: 0, flags: "opt", src: "func r(n) [n].map(e -> r(e + 1)).first(); r(0)"},
